@@ -289,6 +289,16 @@ func c14Judge(c spec.Case, evs []spec.Event, d *Death) CaseResult {
 		if want := fmt.Sprintf("plugin-set v%d %s", wantV, p.Proto); o.Tag != want {
 			viol("wrong-identity", fmt.Sprintf("identity tag %q, want %q", o.Tag, want))
 		}
+		// a cell in which both sides are configured for transport security: the brokered connections are protected
+		// too (on the wire protocol where they have a TLS layer of their own: gRPC)
+		if p.Proto == "grpc" && (p.ServerTLS == "static" || p.ClientTLS == "auto") {
+			for dir, a := range map[string]string{"host to plugin": o.H2PAuth, "plugin to host": o.P2HAuth} {
+				if a == "none" {
+					viol("brokered-connection-not-protected", fmt.Sprintf("the brokered callback %s works, but its connection is not protected by TLS although the cell configures transport security (silent downgrade)", dir))
+				}
+			}
+			res.Counters["brokered_connections_checked_for_tls"]++
+		}
 		if o.BigLen != 8<<20 {
 			viol("large-response", fmt.Sprintf("8 MiB response arrived with %d bytes", o.BigLen))
 		}
@@ -335,7 +345,7 @@ func init() {
 				}
 			}
 		},
-		Rule:        "cells of the product protocol {net/rpc, gRPC} x server TLS {none, TLSProvider} x client TLS {none, static matching, static wrong CA, AutoMTLS} x multiplexing requested x plugin generation {current, emulated pre-mux plugin} x launch {Cmd, custom runner, reattach} x AllowedProtocols {default, [grpc], both} + option conflicts + cells where both sides register several versions (subsets of 1..6) with a wire protocol per version, so that compatibility is decided by the highest common version's protocol against the allowed list; each against a real plugin subprocess. A classification table written from the statement maps every cell to MUST_WORK / MUST_FAIL_AT_START(kind) / MUST_NOT_WORK / EITHER_BUT_CLEAN; 'works' = Ping, identity-tagged call, brokered callback in both directions, 8 MiB response, error on an unknown plugin name. Quick: a seeded sample with every expectation kind (40 MUST_WORK cells); thorough: all 576 cells. Class = expectation + cell",
+		Rule:        "cells of the product protocol {net/rpc, gRPC} x server TLS {none, TLSProvider} x client TLS {none, static matching, static wrong CA, AutoMTLS} x multiplexing requested x plugin generation {current, emulated pre-mux plugin} x launch {Cmd, custom runner, reattach} x AllowedProtocols {default, [grpc], both} + option conflicts + cells where both sides register several versions (subsets of 1..6) with a wire protocol per version, so that compatibility is decided by the highest common version's protocol against the allowed list; each against a real plugin subprocess. A classification table written from the statement maps every cell to MUST_WORK / MUST_FAIL_AT_START(kind) / MUST_NOT_WORK / EITHER_BUT_CLEAN; 'works' = Ping, identity-tagged call, brokered callback in both directions (for gRPC cells with a protected configuration the authentication grpc.Peer reports on the brokered connection must not be none), 8 MiB response, error on an unknown plugin name. Quick: a seeded sample with every expectation kind (40 MUST_WORK cells); thorough: all 576 cells. Class = expectation + cell",
 		Assumptions: []string{"AutoMTLS combined with a server TLSProvider, and AutoMTLS with reattach, are documented as unsupported: only 'no hang, no panic' is required there", "a pre-mux plugin is emulated by removing PLUGIN_MULTIPLEX_GRPC from the plugin's environment at its start", "static TLS = server certificate pinned as the client's RootCA, no client certificates"},
 	})
 }
